@@ -70,17 +70,23 @@ def curve(rng, n):
 
 
 @core.safe_case
-def one(ctx, pts, dx, dy, dz, x_max, y_range, family):
+def one(ctx, pts, dx, dy, dz, x_max, y_range, family, int_dtype=None):
     import kneeliverse.zmethod as zm
     import uts.gradient as grad
     import uts.zscore as uz
     n = len(pts)
     d = ctx.get_driver()
-    case = dict(points=pts.tolist(), dx=dx, dy=dy, dz=dz, x_max=x_max, y_range=y_range)
+    if int_dtype is None:
+        int_dtype = bool(gen.int_ok(pts) and ctx.rng.random() < 0.3)
+    # an integral curve is also delivered as an int64 array (raw counts) to the REAL call; oracles / references keep the float64 copy
+    pin = pts.astype(np.int64) if int_dtype else pts
+    if int_dtype:
+        ctx.tag('input:int64-dtype')
+    case = dict(points=pts.tolist(), dx=dx, dy=dy, dz=dz, x_max=x_max, y_range=y_range, int_dtype=bool(int_dtype))
     site = 'zmethod.knees'
     budget = int(64 * (3.0 / dz + 64 + 2 * n) + 1024)
     try:
-        out, cnt = core.guarded(lambda: zm.knees(pts, dx=dx, dy=dy, dz=dz, x_max=x_max, y_range=y_range), budget)
+        out, cnt = core.guarded(lambda: zm.knees(pin, dx=dx, dy=dy, dz=dz, x_max=x_max, y_range=y_range), budget)
         out = [int(v) for v in np.asarray(out).tolist()]
     except core.LoopBudgetExceeded as e:
         ctx.fail('predicate', 'terminates', site, case, str(e))
@@ -162,9 +168,14 @@ def run(ctx):
             pts[:, 1] *= 2.0 ** -30
             y_range = None if y_range is None else [2.0 ** -30, 0.0]
             fam += '@ytiny30'
+        elif rng.random() < 0.1 and y_range is None:
+            # miss counts instead of miss ratios: integral heights (also byte-count sized), delivered as int64 arrays part of the time
+            q = gen.bytecount_of(pts) if rng.random() < 0.5 else np.column_stack([pts[:, 0], np.floor(pts[:, 1] * 256)])
+            if np.ptp(q[:, 1]) > 0 and np.all(np.diff(q[:, 0]) > 0):
+                pts, fam = q, fam + '@integer'
         one(ctx, pts, dx, dy, dz, x_max, y_range, fam)
 
 
 def replay(ctx, body):
     c = body['case']
-    one(ctx, np.array(c['points'], float), c['dx'], c['dy'], c['dz'], c['x_max'], c['y_range'], 'replay')
+    one(ctx, np.array(c['points'], float), c['dx'], c['dy'], c['dz'], c['x_max'], c['y_range'], 'replay', bool(c.get('int_dtype', False)))
